@@ -142,4 +142,16 @@ CLAIMS['C08'] = {
     'note': _NOTE,
 }
 
+CLAIMS['C07'] = {
+    'text': 'until()/run(till): subscribe/unsubscribe pairing of the until-scope with the '
+            'same (activity, signal) pair and the chained override reached from every exit '
+            '(together with C04/P); _is_suppressed as identity tests against signals the '
+            'scope created itself, with the truth-inlined __aexit__ ending silently exactly '
+            'for them; immediacy <=> truth of every condition class a block can be given '
+            '(generic subscribe by paths, time conditions by exhaustive ordering tables, '
+            'Delay by plumbing); trigger coverage (known finding: All/Any); shape of the '
+            'run(till) root. Exit time = min(trigger, completion) as a number is not decided.',
+    'note': _NOTE,
+}
+
 NOT_APPLICABLE = {}
